@@ -342,11 +342,14 @@ theorem HInv.addRawTx {n : Node} (h : HInv n) (ts : Nat) (hash0 : String) (idx :
           · rw [if_pos h4]; exact h
           · rw [if_neg h4]
             have hp : poolOnly evs = true := by simpa using h4
-            cases ha : applyEvents n n.nextHeight evs with
-            | none => exact h
-            | some n' =>
-              obtain ⟨hlbi, hlat, _⟩ := applyEvents_fields ha
-              exact h.congr (applyEvents_pool_frame hp ha) hlat (fun hw => by rw [← hlbi]; exact hw)
+            by_cases h5 : (!parkedShape sender nonce n.nextHeight evs) = true
+            · rw [if_pos h5]; exact h
+            · rw [if_neg h5]
+              cases ha : applyEvents n n.nextHeight evs with
+              | none => exact h
+              | some n' =>
+                obtain ⟨hlbi, hlat, _⟩ := applyEvents_fields ha
+                exact h.congr (applyEvents_pool_frame hp ha) hlat (fun hw => by rw [← hlbi]; exact hw)
       · rw [if_neg h2]
         split <;> exact h
     · rw [if_neg h1]
@@ -865,9 +868,12 @@ theorem Op.run_clearEq (op : Op) (n : Node) (hop : op.isCommitPoint = false) : C
             by_cases h4 : (!poolOnly evs) = true
             · rw [if_pos h4]; exact ClearEq.refl n
             · rw [if_neg h4]
-              cases ha : applyEvents n n.nextHeight evs with
-              | none => exact ClearEq.refl n
-              | some n' => exact (applyEvents_bstep ha).clearEq
+              by_cases h5 : (!parkedShape sender nonce n.nextHeight evs) = true
+              · rw [if_pos h5]; exact ClearEq.refl n
+              · rw [if_neg h5]
+                cases ha : applyEvents n n.nextHeight evs with
+                | none => exact ClearEq.refl n
+                | some n' => exact (applyEvents_bstep ha).clearEq
         · rw [if_neg h2]
           split <;> exact ClearEq.refl n
       · rw [if_neg h1]
@@ -1023,11 +1029,14 @@ theorem SInv.addRawTx {n : Node} (h : SInv n) (ts : Nat) (hash0 : String) (idx :
           · rw [if_pos h4]; exact h
           · rw [if_neg h4]
             have hp : poolOnly evs = true := by simpa using h4
-            cases ha : applyEvents n n.nextHeight evs with
-            | none => exact h
-            | some n' =>
-              obtain ⟨hlbi, hlat, _⟩ := applyEvents_fields ha
-              exact h.congr (applyEvents_pool_frame hp ha) hlat (by rw [hlbi])
+            by_cases h5 : (!parkedShape sender nonce n.nextHeight evs) = true
+            · rw [if_pos h5]; exact h
+            · rw [if_neg h5]
+              cases ha : applyEvents n n.nextHeight evs with
+              | none => exact h
+              | some n' =>
+                obtain ⟨hlbi, hlat, _⟩ := applyEvents_fields ha
+                exact h.congr (applyEvents_pool_frame hp ha) hlat (by rw [hlbi])
       · rw [if_neg h2]
         split <;> exact h
     · rw [if_neg h1]
@@ -1313,11 +1322,14 @@ theorem addRawTx_block_frame (n : Node) (ts : Nat) (hash0 : String) (idx : Nat) 
           · rw [if_pos h4]; exact ⟨rfl, rfl, rfl⟩
           · rw [if_neg h4]
             have hp : poolOnly evs = true := by simpa using h4
-            cases ha : applyEvents n n.nextHeight evs with
-            | none => exact ⟨rfl, rfl, rfl⟩
-            | some n' =>
-              obtain ⟨_, hlat, hmx⟩ := applyEvents_fields ha
-              exact ⟨applyEvents_pool_frame hp ha, hlat, hmx⟩
+            by_cases h5 : (!parkedShape sender nonce n.nextHeight evs) = true
+            · rw [if_pos h5]; exact ⟨rfl, rfl, rfl⟩
+            · rw [if_neg h5]
+              cases ha : applyEvents n n.nextHeight evs with
+              | none => exact ⟨rfl, rfl, rfl⟩
+              | some n' =>
+                obtain ⟨_, hlat, hmx⟩ := applyEvents_fields ha
+                exact ⟨applyEvents_pool_frame hp ha, hlat, hmx⟩
       · rw [if_neg h2]
         split <;> exact ⟨rfl, rfl, rfl⟩
     · rw [if_neg h1]
